@@ -69,7 +69,10 @@ def gen(rng, tier):
     for bad in ["", "0x0", "ab", "0xzz", 5, None, True, ["0xab"], {"a": 1}]:
         cases.append(Case("td.hash " + hx(tdgen.dumps(doc_for("bytes1", bad if not isinstance(bad, (int, type(None), bool, list, dict)) or isinstance(bad, bool) else bad, 1))), tags=("wrong-kind",)))
     # wrong JSON kinds for every atom
-    wrong = [None, True, 5, Raw("5.5"), "x", "0x", [], {}, [1], {"a": 1}, "0x1", Raw("-5"), "-5", Raw("1e400") if False else Raw("1e30")]
+    # (incl. the TEXT of a value of the right kind where another kind is declared: "true" for a bool, "1" / 1 / 0 for a
+    # bool, the text of a number for a string, "null", "[]", "{}" …: a string is a string, whatever it spells)
+    wrong = [None, True, 5, Raw("5.5"), "x", "0x", [], {}, [1], {"a": 1}, "0x1", Raw("-5"), "-5", Raw("1e400") if False else Raw("1e30"),
+             "true", "false", "True", "TRUE", " true", "1", "0", Raw("1"), Raw("0"), False, "null", "[]", "{}", "yes", "on", "t", "\"x\"", ["x"], [True], "0x01", "0x00"]
     for t in ["bool", "address", "string", "bytes", "bytes4", "uint8", "int8", "uint256", "int256", "Q", "uint8[]", "uint8[2]"]:
         for w in wrong:
             if t == "Q":
